@@ -17,7 +17,9 @@ import (
 	"strings"
 	"testing"
 
+	"github.com/indexsupply/shovel/dig"
 	"github.com/indexsupply/shovel/shovel/config"
+	"github.com/indexsupply/shovel/wctx"
 	"github.com/indexsupply/shovel/wpg"
 )
 
@@ -118,6 +120,17 @@ func TestVerifLoadTasksBounded(t *testing.T) {
 				}
 			}
 			for _, task := range tasks {
+				// C04: the names a task writes under are the same everywhere: the
+				// Task fields, the context values read by the row builder, and the
+				// destination built from the integration
+				if wctx.SrcName(task.ctx) != task.srcName || wctx.IGName(task.ctx) != task.destConfig.Name || wctx.ChainID(task.ctx) != task.srcChainID {
+					fail("%s: task %s/%s carries context names %s/%s chain %d", desc, task.srcName, task.destConfig.Name, wctx.SrcName(task.ctx), wctx.IGName(task.ctx), wctx.ChainID(task.ctx))
+				}
+				for _, d := range task.dests {
+					if ig, ok := d.(dig.Integration); !ok || ig.Name() != task.destConfig.Name {
+						fail("%s: task %s/%s has a destination of another name", desc, task.srcName, task.destConfig.Name)
+					}
+				}
 				s := fmt.Sprintf("%s/%s table=%s start=%d stop=%d chain=%d", task.srcName, task.destConfig.Name, task.destConfig.Table.Name, task.start, task.stop, task.srcChainID)
 				// batch size and concurrency fall back to defaults when unset: compare only what the source sets
 				if task.srcName == "ds" {
